@@ -254,7 +254,14 @@ impl<B> Flow<B, SendRequest> {
     pub fn write(&mut self, output: &mut [u8]) -> Result<usize, Error> {
         match &mut self.inner.call {
             CallHolder::WithoutBody(v) => v.write(output),
-            CallHolder::WithBody(v) => v.write(&[], output).map(|r| r.1),
+            CallHolder::WithBody(v) => {
+                if v.is_body() {
+                    // The request is already written. An empty input here would be
+                    // taken as the end of the body by the body writer.
+                    return Ok(0);
+                }
+                v.write(&[], output).map(|r| r.1)
+            }
             _ => unreachable!(),
         }
     }
